@@ -452,6 +452,41 @@ Section Entity.
     destruct (Z.ltb_spec (Z.of_nat i) 0); [lia|]. reflexivity.
   Qed.
 
+  Lemma skip_down_char : forall t, t < n ->
+    exists z, skip_down rdel t = Some z /\
+      ((z = (-1)%Z /\ forall k, k <= t -> del k = true) \/
+       (exists i, z = Z.of_nat i /\ i <= t /\ del i = false /\ forall k, i < k <= t -> del k = true)).
+  Proof.
+    induction t as [|t IH]; intros Ht; simpl; rewrite Hr by lia.
+    - destruct (del 0) eqn:D.
+      + exists (-1)%Z. split; [reflexivity|]. left. split; [reflexivity|]. intros k Hk. assert (k = 0) by lia. subst. exact D.
+      + exists (Z.of_nat 0). split; [reflexivity|]. right. exists 0. split; [reflexivity|]. split; [lia|]. split; [exact D|]. intros; lia.
+    - destruct (del (S t)) eqn:D.
+      + destruct (IH ltac:(lia)) as (z & E & C). exists z. split; [exact E|]. destruct C as [(-> & A)|(i & -> & Hi & Di & A)].
+        * left. split; [reflexivity|]. intros k Hk. destruct (Nat.eq_dec k (S t)) as [->|]; [exact D|apply A; lia].
+        * right. exists i. split; [reflexivity|]. split; [lia|]. split; [exact Di|]. intros k Hk. destruct (Nat.eq_dec k (S t)) as [->|]; [exact D|apply A; lia].
+      + exists (Z.of_nat (S t)). split; [reflexivity|]. right. exists (S t). split; [reflexivity|]. split; [lia|]. split; [exact D|]. intros; lia.
+  Qed.
+
+  Theorem entity_next_prev c c' :
+    e_wf c -> e_valid c = true -> e_prev rdel c = Some c' -> e_valid c' = true -> e_next rdel n c' = Some c.
+  Proof.
+    intros W V N V'. destruct (W V) as (i & Ei & Hi & D).
+    destruct c as [z v]; simpl in *. subst z v. unfold e_prev in N. cbn [e_idx e_valid] in N.
+    destruct (Z.ltb_spec (Z.of_nat i - 1) 0) as [L|L]; [injection N as <-; discriminate|].
+    replace (Z.to_nat (Z.of_nat i - 1)) with (i - 1) in N by lia.
+    destruct (skip_down_char (i - 1) ltac:(lia)) as (z & E & C). rewrite E in N. injection N as <-. simpl in V'.
+    destruct C as [(-> & _)|(i' & -> & Hi' & Di' & A)]; [discriminate|].
+    destruct (Z.ltb_spec (Z.of_nat i') 0); [lia|].
+    unfold e_next. cbn [e_idx e_valid]. replace (Z.of_nat i' + 1)%Z with (Z.of_nat (S i')) by lia.
+    destruct (settle_spec (S i') true ltac:(lia)) as (j & Ej & R & Aj & Bj). rewrite Ej.
+    assert (j = i).
+    { destruct (Nat.lt_trichotomy j i) as [Lt|[Eq|Gt]]; [|exact Eq|].
+      - specialize (Bj ltac:(lia)). rewrite (A j) in Bj by lia. discriminate.
+      - rewrite (Aj i) in D by lia. discriminate. }
+    subst j. destruct (Nat.leb_spec n i); [lia|]. reflexivity.
+  Qed.
+
   (* D11.  operator-- never sets valid back to true ... *)
   Theorem entity_prev_never_validates c c' : e_prev rdel c = Some c' -> e_valid c' = true -> e_valid c = true.
   Proof.
@@ -598,3 +633,145 @@ Qed.
    sequence of ++ / -- that stays defined and valid-or-not *)
 Lemma next_wf_any nx l m c c' : c_wf l m c -> c_next nx l m c = Some c' -> c_wf l m c'.
 Proof. intros W N. rewrite next_any_eq in N by (destruct W; assumption). exact (next_wf _ _ _ _ W N). Qed.
+
+(* ------------------------------------------------------------------ BoundaryItemIter *)
+
+Lemma filter_skip (P : nat -> bool) n i j :
+  i <= j <= n -> (forall k, i <= k < j -> P k = false) -> filter P (seq i (n - i)) = filter P (seq j (n - j)).
+Proof.
+  intros Hij A. replace (n - i) with ((j - i) + (n - j)) by lia.
+  rewrite seq_app, filter_app. replace (i + (j - i)) with j by lia.
+  rewrite filter_all_false; [reflexivity|]. intros k Hk. apply in_seq in Hk. apply A. lia.
+Qed.
+
+Section Boundary.
+  Variable n : nat.
+  Variable del : nat -> bool.
+  Variable rdel : nat -> option bool.
+  Hypothesis Hr : forall i, i < n -> rdel i = Some (del i).
+  (* is_boundary is defined (no out-of-range read) on every not-deleted entity: has_incidences() holds *)
+  Variable bd : nat -> bool.
+  Variable isb : nat -> option bool.
+  Hypothesis Hb : forall i, i < n -> del i = false -> isb i = Some (bd i).
+  Let P := fun i => negb (del i) && bd i.
+
+  (* the inner entity iterator: on a live entity (valid) or at end() (invalid) *)
+  Definition norm (i : nat) : estate := mkE (Z.of_nat i) (negb (n <=? i)).
+
+  Lemma norm_end : norm n = e_end n.
+  Proof. unfold norm, e_end. rewrite Nat.leb_refl. reflexivity. Qed.
+
+  Lemma norm_eqb_end i : i <= n -> e_eqb (norm i) (e_end n) = (n <=? i).
+  Proof.
+    intros Hi. unfold e_eqb, norm, e_end. cbn [e_idx e_valid].
+    destruct (Nat.leb_spec n i) as [L|L].
+    - assert (i = n) by lia. subst. rewrite Z.eqb_refl. reflexivity.
+    - destruct (Z.eqb_spec (Z.of_nat i) (Z.of_nat n)); [lia|reflexivity].
+  Qed.
+
+  Lemma e_next_norm i : i < n ->
+    exists j, e_next rdel n (norm i) = Some (norm j) /\ i < j <= n /\
+              (forall k, i < k < j -> del k = true) /\ (j < n -> del j = false).
+  Proof.
+    intros Hi. unfold e_next.
+    change (e_idx (norm i)) with (Z.of_nat i). change (e_valid (norm i)) with (negb (n <=? i)).
+    replace (Z.of_nat i + 1)%Z with (Z.of_nat (S i)) by lia.
+    destruct (settle_spec n del rdel Hr (S i) (negb (n <=? i)) ltac:(lia)) as (j & E & R & A & B).
+    exists j. rewrite E. split.
+    - unfold norm. destruct (Nat.leb_spec n i); [lia|]. destruct (n <=? j); reflexivity.
+    - split; [lia|]. split; [intros; apply A; lia|exact B].
+  Qed.
+
+  Lemma scan_up_spec fuel : forall i, i <= n -> (i < n -> del i = false) -> n - i < fuel ->
+    exists j, b_scan_up fuel rdel n isb (e_end n) (norm i) = Some (norm j) /\ i <= j <= n /\
+              (forall k, i <= k < j -> P k = false) /\ (j < n -> P j = true).
+  Proof.
+    induction fuel as [|fuel IH]; intros i Hi Li Hf; [lia|].
+    cbn [b_scan_up]. rewrite norm_eqb_end by exact Hi.
+    destruct (Nat.leb_spec n i) as [L|L].
+    - exists i. split; [reflexivity|]. split; [lia|]. split; intros; lia.
+    - unfold isb_z. change (e_idx (norm i)) with (Z.of_nat i). destruct (Z.ltb_spec (Z.of_nat i) 0); [lia|].
+      rewrite Nat2Z.id, (Hb i L (Li L)). destruct (bd i) eqn:Bi.
+      + exists i. split; [reflexivity|]. split; [lia|]. split; [intros; lia|]. intros _. unfold P. rewrite (Li L), Bi. reflexivity.
+      + destruct (e_next_norm i L) as (j' & E & R & A & B). rewrite E.
+        destruct (IH j' ltac:(lia) B ltac:(lia)) as (j & Ej & Rj & Aj & Bj).
+        exists j. split; [exact Ej|]. split; [lia|]. split; [|exact Bj].
+        intros k Hk. destruct (Nat.eq_dec k i) as [->|Ne]; [unfold P; rewrite Bi; apply andb_false_r|].
+        destruct (Nat.lt_ge_cases k j') as [Lk|Lk]; [unfold P; rewrite A by lia; reflexivity|apply Aj; lia].
+  Qed.
+
+  Lemma scan_fuel_ok i : n - i < scan_fuel n (norm i).
+  Proof. unfold scan_fuel, norm. cbn [e_idx]. lia. Qed.
+
+  Lemma btrace_from fuel : forall i cur, i < n -> del i = false -> P i = true -> n - i <= fuel ->
+    exists e, b_trace fuel rdel n isb (mkB (norm i) true cur) = Some (cur :: map Z.of_nat (filter P (seq (S i) (n - S i))), e)
+              /\ b_valid e = false /\ b_it e = e_end n.
+  Proof.
+    induction fuel as [|fuel IH]; intros i cur Hi Di Pi Hf; [lia|].
+    cbn [b_trace b_valid]. unfold b_next. cbn [b_it b_valid b_cur].
+    rewrite (entity_end_state n del rdel Hr).
+    destruct (e_next_norm i Hi) as (j' & E & R & A & B). rewrite E.
+    destruct (scan_up_spec (scan_fuel n (norm j')) j' ltac:(lia) B (scan_fuel_ok j')) as (j & Ej & Rj & Aj & Bj).
+    rewrite Ej. rewrite norm_eqb_end by lia.
+    assert (Skip : filter P (seq (S i) (n - S i)) = filter P (seq j (n - j))).
+    { apply filter_skip; [lia|]. intros k Hk. destruct (Nat.lt_ge_cases k j') as [Lk|Lk]; [unfold P; rewrite A by lia; reflexivity|apply Aj; lia]. }
+    rewrite Skip. destruct (Nat.leb_spec n j) as [L|L]; cbn [negb].
+    - assert (j = n) by lia. subst j. rewrite Nat.sub_diag. cbn [seq filter map].
+      exists (mkB (norm n) false cur). rewrite norm_end. destruct fuel; cbn [b_trace b_valid]; auto.
+    - assert (Dj : del j = false).
+      { specialize (Bj L). unfold P in Bj. apply andb_true_iff in Bj. destruct Bj as (Bj & _). apply negb_true_iff in Bj. exact Bj. }
+      destruct (IH j (Z.of_nat j) L Dj (Bj L) ltac:(lia)) as (e & T & V & I).
+      change (e_idx (norm j)) with (Z.of_nat j).
+      rewrite T. exists e. split; [|auto].
+      replace (n - j) with (S (n - S j)) by lia. cbn [seq filter]. rewrite (Bj L). reflexivity.
+  Qed.
+
+  (* the boundary iterator visits exactly the not-deleted boundary entities, ascending, once *)
+  Theorem boundary_forward fuel : n <= fuel ->
+    exists b e, b_begin true rdel n isb = Some b /\
+                b_trace (S fuel) rdel n isb b = Some (map Z.of_nat (filter P (seq 0 n)), e) /\ b_valid e = false.
+  Proof.
+    intros Hf. unfold b_begin. cbn [negb].
+    rewrite (entity_end_state n del rdel Hr).
+    unfold e_begin. destruct (settle_spec n del rdel Hr 0 true ltac:(lia)) as (j0 & E & R & A & B). rewrite E.
+    replace (mkE (Z.of_nat j0) (if n <=? j0 then false else true)) with (norm j0) by (unfold norm; destruct (n <=? j0); reflexivity).
+    destruct (scan_up_spec (scan_fuel n (norm j0)) j0 ltac:(lia) B (scan_fuel_ok j0)) as (j & Ej & Rj & Aj & Bj).
+    rewrite Ej, norm_eqb_end by lia.
+    assert (Skip : filter P (seq 0 n) = filter P (seq j (n - j))).
+    { replace (seq 0 n) with (seq 0 (n - 0)) by (rewrite Nat.sub_0_r; reflexivity). apply filter_skip; [lia|].
+      intros k Hk. destruct (Nat.lt_ge_cases k j0) as [Lk|Lk]; [unfold P; rewrite A by lia; reflexivity|apply Aj; lia]. }
+    rewrite Skip. destruct (Nat.leb_spec n j) as [L|L]; cbn [negb].
+    - assert (j = n) by lia. subst j. rewrite Nat.sub_diag. eexists. eexists. split; [reflexivity|]. cbn. auto.
+    - assert (Dj : del j = false).
+      { specialize (Bj L). unfold P in Bj. apply andb_true_iff in Bj. destruct Bj as (Bj & _). apply negb_true_iff in Bj. exact Bj. }
+      destruct (btrace_from (S fuel) j (Z.of_nat j) L Dj (Bj L) ltac:(lia)) as (e & T & V & _).
+      eexists. exists e. split; [reflexivity|]. change (e_idx (norm j)) with (Z.of_nat j). rewrite T. split; [|exact V].
+      replace (n - j) with (S (n - S j)) by lia. cbn [seq filter]. rewrite (Bj L). reflexivity.
+  Qed.
+End Boundary.
+
+(* without has_incidences() the iterator is invalid at construction and reads nothing *)
+Lemma boundary_no_incidences rdel n isb it0 iend :
+  e_begin rdel n 0 = Some it0 -> e_begin rdel n n = Some iend ->
+  b_begin false rdel n isb = Some (mkB it0 false (-1)%Z).
+Proof. intros E0 E1. unfold b_begin. rewrite E0, E1. reflexivity. Qed.
+
+(* stepping back from begin and then forward again: defined (and invalid) for every -- form except the early
+   return of CellFaceIterImpl *)
+Theorem back_then_forward_defined nx pv l m x t :
+  pv <> PrevDecEarly -> l = x :: t -> (1 <= m)%Z ->
+  exists c' c'', c_prev pv l (mkC 0 0%Z true (Some x)) = Some c' /\ c_valid c' = false /\
+                 c_next nx l m c' = Some c'' /\ c_valid c'' = false.
+Proof.
+  intros Hpv E Hm. pose proof (begin_wf l m x t E Hm) as W.
+  assert (P : c_prev pv l (mkC 0 0%Z true (Some x)) = c_prev PrevWrap l (mkC 0 0%Z true (Some x))).
+  { destruct pv; [reflexivity|apply prev_dec_wrap; destruct W; assumption|congruence]. }
+  destruct (prev_defined l m _ W) as (c' & Ec'). rewrite P. exists c'.
+  pose proof (prev_wf _ _ _ _ W Ec') as W'.
+  assert (V' : c_valid c' = false).
+  { rewrite prev_wrap_step in Ec' by (destruct W; assumption). simpl in Ec'. injection Ec' as <-. reflexivity. }
+  destruct (next_defined l m c' W') as (c'' & Ec''). exists c''.
+  split; [exact Ec'|]. split; [exact V'|]. split; [rewrite next_any_eq by (destruct W'; assumption); exact Ec''|].
+  destruct (c_valid c'') eqn:V''; [|reflexivity].
+  pose proof (next_never_validates NextEq l m c' c'' Ec'' V''). congruence.
+Qed.
